@@ -6,11 +6,11 @@ wt=$1; patch=$2; demo=$3; pkg=$4; tests=${5:-./$pkg/...}
 export GOFLAGS=-mod=mod GOPROXY=off GOSUMDB=off GOTOOLCHAIN=local
 cd "$wt" || exit 2
 git checkout -q -- . && git clean -fdq && git checkout -q --detach "$(git -C /repo rev-parse HEAD)" || exit 2
-cp go.mod /var/tmp/cm.mod; cp go.sum /var/tmp/cm.sum
-MF=-modfile=/var/tmp/cm.mod
+cm=/var/tmp/cm.$$; cp go.mod $cm.mod; cp go.sum $cm.sum
+MF=-modfile=$cm.mod
 cp "$demo" "$pkg/zz_demo_test.go"
 echo "--- demo on unchanged tree (must pass)"
-go test $MF -count=1 -vet=off ./$pkg 2>&1 | tail -3
+go test $MF -count=1 -vet=off $DEMO_RUN ./$pkg 2>&1 | tail -3
 rm "$pkg/zz_demo_test.go"
 git apply "$patch" || { echo "PATCH DOES NOT APPLY"; exit 1; }
 echo "--- build with change"
@@ -19,5 +19,5 @@ echo "--- existing tests with change (must pass)"
 go test $MF -count=1 -vet=off $tests 2>&1 | tail -8
 cp "$demo" "$pkg/zz_demo_test.go"
 echo "--- demo with change (must fail)"
-go test $MF -count=1 -vet=off ./$pkg 2>&1 | tail -6
+go test $MF -count=1 -vet=off $DEMO_RUN ./$pkg 2>&1 | tail -6
 git checkout -q -- . && git clean -fdq
